@@ -143,7 +143,13 @@ def _algos():
     A['Diffusion'] = ('vec', lambda a, x: Diffusion(n_iter=5).fit_predict(a, values=x['values']), 1e-9, 'any')
     A['Dirichlet'] = ('vec', lambda a, x: Dirichlet(n_iter=8).fit_predict(a, values=x['values']), 1e-9, 'any')
     A['DiffusionClassifier(probs)'] = ('rows', lambda a, x: DiffusionClassifier().fit(a, labels=x['labels']).probs_.toarray(), 1e-9, 'any')
-    A['DiffusionClassifier(labels)'] = ('vec', lambda a, x: DiffusionClassifier().fit(a, labels=x['labels']).labels_, 0, 'any')
+    def _dc_labels(a, x):
+        # arg-max labels, except where the two best probabilities are within 1e-6 (a tie decided by rounding)
+        clf = DiffusionClassifier().fit(a, labels=x['labels'])
+        p = np.sort(clf.probs_.toarray(), axis=1)
+        margin = p[:, -1] - (p[:, -2] if p.shape[1] > 1 else 0)
+        return np.where(margin > 1e-6, clf.labels_, -2)
+    A['DiffusionClassifier(labels)'] = ('vec', _dc_labels, 0, 'any')
     A['PageRankClassifier(probs)'] = ('rows', lambda a, x: PageRankClassifier().fit(a, labels=x['labels']).probs_.toarray(), 1e-7, 'any')
     A['triangles'] = ('inv', lambda a, x: count_triangles(a), 0, 'undirected')
     A['cliques3'] = ('inv', lambda a, x: count_cliques(a, 3), 0, 'undirected')
